@@ -7,6 +7,7 @@ import (
 	"runtime"
 
 	"github.com/cloudwego/frugal"
+	"github.com/cloudwego/frugal/zverif/explore"
 	"github.com/cloudwego/frugal/zverif/harness"
 	"github.com/cloudwego/frugal/zverif/hooks"
 	"github.com/cloudwego/frugal/zverif/ref"
@@ -33,7 +34,7 @@ func (r Res) String() string {
 
 func guard(r *Res) {
 	if p := recover(); p != nil {
-		if hooks.IsAbort(p) {
+		if hooks.IsAbort(p) || explore.IsHarnessPanic(p) {
 			panic(p)
 		}
 		r.Panic = p
